@@ -29,7 +29,7 @@ ASSUMPTIONS = [
     "the writer raising (e.g. description over 210 bytes) = object not accepted, not a violation",
     "shards run with PYTHONUTF8=1 so that path I/O of non-ASCII comments does not depend on the sandbox locale",
 ]
-TIMEOUT = {"quick": 1800, "thorough": 6 * 3600}
+TIMEOUT = {"quick": 900, "thorough": 6 * 3600}
 NSH = 16
 
 
